@@ -521,8 +521,7 @@ class EvalFunc:
                             return None
 
                         task = Function.create_task(do_service_call(func, ast_ctx, func_args), ast_ctx=ast_ctx)
-                        await task
-                        return task.result()
+                        return await Function.wait_for_task(task)
 
                     return pyscript_service_handler
 
